@@ -363,8 +363,12 @@ class Check(core.PropertyCheck):
 
     def model_runs(self, ctx):
         c = self._consts(ctx.tier)
-        wire = ctx.model_check(self.MODEL, c["wire"], dump=True, tag="_wire")
-        table = ctx.model_check(self.MODEL, c["table"], dump=True, tag="_table")
+        from concurrent.futures import ThreadPoolExecutor
+
+        with ThreadPoolExecutor(2) as ex:  # two independent single-worker TLC runs side by side
+            fw = ex.submit(ctx.model_check, self.MODEL, c["wire"], dump=True, tag="_wire")
+            ft = ex.submit(ctx.model_check, self.MODEL, c["table"], dump=True, tag="_table")
+            wire, table = fw.result(), ft.result()
         runs = [wire, table]
         self.sim = []
         if not ctx.quick:
